@@ -1,8 +1,9 @@
 from engine import G
 LEVEL = "other"
 LEVEL_TEXT = ("The date validators are loop-free: their contract (result == Gregorian rule; YYMMDD additionally requires six decimal "
-              "digits) is decided for every input. Parameter, key, primality and irreducibility validators are NOT covered: their "
-              "verdicts rest on modular exponentiation / polynomial arithmetic that no installed back end decides.")
+              "digits) is decided for every input. bignPubkeyVal / bignKeypairVal: flow contracts over callee contracts. Word-size primality, "
+              "next-prime and small-degree irreducibility: exhaustive native windows (enumeration, not contracts). Parameter validators and "
+              "multi-word number theory are NOT covered.")
 SRC = ["src/core/tm.c", "src/core/mem.c", "src/core/util.c"]
 GROUPS = [
     G("date_yymmdd", "harness/C12/date.c", "h_date", SRC, defs=["DATE2_ONLY"], level="P", search=500000, timeout=600,
@@ -21,7 +22,11 @@ GROUPS += [
     G("numbers.irred_window", "harness/C12/numbers.c", "h_irred_window", NUM, level="X", backend="native", search=1, ndebug=True, timeout=1800,
       fn=["ppIsIrred"], note="level X: every binary polynomial of degree 1..13 against trial division; not a contract"),
 ]
+import importlib.util, os
+_sp = importlib.util.spec_from_file_location("plan_C02_for_C12", os.path.join(os.path.dirname(__file__), "C02.py"))
+_c02 = importlib.util.module_from_spec(_sp); _sp.loader.exec_module(_c02)
+GROUPS += [g for g in _c02.GROUPS if g["name"].startswith(("flow.pubkeyval", "flow.keypairval", "roundtrip"))]
 TRUSTED = []
 ASSUMPTIONS = []
-NOT_COVERED = ["bignParamsVal, bignPubkeyVal, bignKeypairVal and the g12s/stb99/dstu/pfok/bels validators (guard-structure contracts not built)",
+NOT_COVERED = ["bignParamsVal and the g12s/stb99/dstu/pfok/bels validators (flow contracts not built)",
                "priIsPrime / priRMTest / priNextPrime beyond one word and ppIsIrred beyond degree 13; ecpIsValid, ecpIsSafeGroup: correctness of the verdict is number theory"]
